@@ -48,6 +48,7 @@ COVER = {
 }
 DELEGATED = {"dstuPointCompress": "needs the binary-curve model (C16); covered there",
              "dstuPointRecover": "needs the binary-curve model (C16); covered there"}
+WORD_OPS = set()   # ops on machine words (filled below with the math-header functions)
 START_MODES = {"beltWBLStart": "WBL", "beltECBStart": "ECB", "beltCBCStart": "CBC", "beltCFBStart": "CFB",
                "beltCTRStart": "CTR", "beltMACStart": "MAC", "beltDWPStart": "DWP", "beltCHEStart": "CHE",
                "beltBDEStart": "BDE", "beltSDEStart": "SDE", "beltFMTStart": "FMT", "beltKRPStart": "KRP"}
@@ -163,7 +164,7 @@ def memjoin_sweep(ctx, S):
                         continue
                     if ctx.tier != "quick" and rng.random() > 0.35:
                         continue
-                    arena = bytes(rng.randrange(256) for _ in range(W))
+                    arena = rng.randbytes(W)
                     c = S.Case("memJoin", spec, {"n1": c1, "n2": c2}, {"d": d, "s1": s1, "s2": s2}, arena)
                     c.off, c.aux = d - s1, "sweep"
                     cases.append(c)
@@ -213,6 +214,134 @@ def key_of(case, bufs_bad):
                _inter(case.addr[a], case.size(a), case.addr[b], case.size(b)):
                 ov.append("%s~%s" % (a, b))
     return "%s:%s" % (case.fn, ",".join(ov) or "none")
+
+
+def build_lines(cases, dops, dres):
+    """op lines for harness + driver: concrete functions as they are; abstract-core functions with the
+       disjoint relocation and the values the real library produced there"""
+    lines = []
+    for c, (dop, daddr), dr in zip(cases, dops, dres):
+        if c.spec.get("concrete"):
+            lines.append(c.op())
+            continue
+        rd, od = outputs_of(c, daddr, dr)
+        if rd is None:
+            lines.append(c.op())
+            continue
+        vals = []
+        dret, dar = split_out(dr)
+        for cid, b in c.spec["outs"]:
+            if daddr[b] is not None:
+                n = c.size(b)
+                vals.append("%s=%s" % (cid, dar[daddr[b]:daddr[b] + n].hex() or "-"))
+        lines.append(" ".join([c.op(), "|", dop.split(" ", 1)[1], "|", dret] + vals))
+    return lines
+
+
+def regression_cases(ctx, exe, S):
+    """the placements of docs/C11.fix-1/2: iv INSIDE dest for beltSDEEncr/Decr, header INSIDE dest for
+       beltKWPUnwrap (valid token from the library's Wrap), dest shifted against src by several offsets"""
+    rng = ctx.rng
+    out = []
+
+    def arena_for(end):
+        return bytearray(rng.randbytes(end))
+    for fn in ("beltSDEEncr", "beltSDEDecr"):
+        spec = S.SPEC[fn]
+        for n in (32, 48):
+            for ln in (16, 32):
+                for doff in (-(n + 4), -5, -1, 1, 16, n + 3):      # dest - src (dest == src makes the move a no-op)
+                    for ivo in (0, 1, 7, 8, n - 16, n - 17, -9, n - 7):   # iv - dest: inside, flush, straddling both ends
+                        src = n + 24
+                        dest = src + doff
+                        iv = dest + ivo
+                        if iv < 0:
+                            continue
+                        key = max(src, dest) + n + 8
+                        ar = arena_for(key + ln + 8)
+                        c = S.Case(fn, spec, {"n": n, "len": ln}, {"d": dest, "s": src, "k": key, "iv": iv}, bytes(ar))
+                        c.off, c.aux = doff, "regress"
+                        out.append(c)
+    spec = S.SPEC["beltKWPUnwrap"]
+    for n in (32, 48, 49):
+        for ln in (16, 24):
+            sc = {"n": n, "len": ln}
+            op, ex = spec["prepare"](rng, sc)
+            prep = ex(run_robust(ctx, exe, [op])[0])
+            if prep.get("hdr") is None:
+                continue
+            for doff in (-(n + 4), -5, -1, 0, 1, 16, n + 3):
+                for ho in (0, 1, 8, n - 32, n - 33, -9, n - 16 - 7):     # header - dest
+                    src = n + 24
+                    dest = src + doff
+                    hdr = dest + ho
+                    if hdr < 0 or S.intersects(hdr, 16, src, n):
+                        continue                                    # header over src would destroy the token itself
+                    key = max(src, dest) + n + 8
+                    ar = arena_for(key + ln + 8)
+                    ar[key:key + ln] = prep["k"]
+                    ar[src:src + n] = prep["s"]
+                    ar[hdr:hdr + 16] = prep["hdr"]
+                    if bytes(ar[src:src + n]) != prep["s"]:
+                        continue
+                    c = S.Case("beltKWPUnwrap", spec, sc, {"d": dest, "s": src, "hdr": hdr, "k": key}, bytes(ar))
+                    c.off, c.aux = doff, "regress"
+                    out.append(c)
+    return out
+
+
+# expected call sequence of every high-level function between blobCreate and the final return: the order
+# program of Bee2V/C11/Prog.lean transcribes exactly this (fail-closed source-shape tie)
+HL_SHAPE = {
+    "beltCBCEncr": "beltCBCStart memMove beltCBCStepE", "beltCBCDecr": "beltCBCStart memMove beltCBCStepD",
+    "beltCFBEncr": "beltCFBStart memMove beltCFBStepE", "beltCFBDecr": "beltCFBStart memMove beltCFBStepD",
+    "beltCTR": "beltCTRStart memMove beltCTRStepE",
+    "beltBDEEncr": "beltBDEStart memMove beltBDEStepE", "beltBDEDecr": "beltBDEStart memMove beltBDEStepD",
+    "beltSDEEncr": "beltSDEStart memCopy memMove beltSDEStepE", "beltSDEDecr": "beltSDEStart memCopy memMove beltSDEStepD",
+    "beltFMTEncr": "beltFMTStart memMove beltFMTStepE", "beltFMTDecr": "beltFMTStart memMove beltFMTStepD",
+    "beltMAC": "beltMACStart beltMACStepA beltMACStepG", "beltHMAC": "beltHMACStart beltHMACStepA beltHMACStepG",
+    "beltHash": "beltHashStart beltHashStepH beltHashStepG", "bashHash": "bashHashStart bashHashStepH bashHashStepG",
+    "beltDWPWrap": "beltDWPStart beltDWPStepI memMove beltDWPStepE beltDWPStepA beltDWPStepG",
+    "beltCHEWrap": "beltCHEStart beltCHEStepI memMove beltCHEStepE beltCHEStepA beltCHEStepG",
+    "beltDWPUnwrap": "beltDWPStart beltDWPStepI beltDWPStepA beltDWPStepV memMove beltDWPStepD",
+    "beltCHEUnwrap": "beltCHEStart beltCHEStepI beltCHEStepA beltCHEStepV memMove beltCHEStepD",
+    "beltKWPWrap": "beltWBLStart memJoin memMove memSetZero beltWBLStepE",
+    "beltKWPUnwrap": "beltWBLStart memCopy memSetZero memCopy memMove beltWBLStepD2 memEq memSetZero",
+    "beltKRP": "beltKRPStart beltKRPStepG",
+}
+
+
+def hl_shape(ctx):
+    problems = []
+    srcdir = os.path.join(vcommon.REPO, "src", "crypto")
+    texts = []
+    for d, _, fs in os.walk(srcdir):
+        for f in fs:
+            if f.endswith(".c"):
+                texts.append(open(os.path.join(d, f), encoding="utf-8", errors="replace").read())
+    for fn, want in HL_SHAPE.items():
+        body = None
+        for t in texts:
+            m = re.search(r"^err_t %s\([^)]*\)\s*\{(.*?)^\}" % fn, t, flags=re.S | re.M)
+            if m:
+                body = m.group(1)
+                break
+        if body is None:
+            problems.append("%s: definition not found" % fn)
+            continue
+        body = re.sub(r"//[^\n]*", "", body)
+        i = body.find("blobCreate")
+        if i < 0:
+            problems.append("%s: no blobCreate" % fn)
+            continue
+        calls = re.findall(r"\b((?:belt|bash)[A-Z]\w*|memMove|memCopy|memJoin|memSetZero|memEq|memIsZero|memXor2?|memSet)\s*\(", body[i:])
+        calls = [c for c in calls if not c.endswith("_keep")]
+        calls = [c.replace("beltKWP", "beltWBL") for c in calls]
+        # a failed StepV closes the blob and returns: same sequence prefix
+        if " ".join(calls) != want:
+            problems.append("%s: call sequence changed: `%s` (order program transcribes `%s`)" % (fn, " ".join(calls), want))
+    return problems
+
 
 
 # ------------------------------------------------------------------ state-resident placements
@@ -329,6 +458,7 @@ def run(ctx):
             if excl.get(f, []) != want.get(f, []):
                 problems.append("exclusions of %s changed in the header: %s (theorem assumes %s)" % (f, excl.get(f), want.get(f, [])))
         problems += source_shape(ctx)
+        problems += hl_shape(ctx)
         ctx.cov["scope_functions"] = len(scope)
         ctx.cov["cover_classes"] = dict(collections.Counter(COVER[f] for f in scope if f in COVER))
     except Exception as e:
@@ -351,7 +481,7 @@ def run(ctx):
     exe = ctx.cc("harness/c11.c", "asan")
 
     # ---- generate placements; pass 1: disjoint calls on the implementation
-    cases = corpus_cases(S) + gen_cases(ctx, exe, S) + memjoin_sweep(ctx, S)
+    cases = corpus_cases(S) + regression_cases(ctx, exe, S) + gen_cases(ctx, exe, S) + memjoin_sweep(ctx, S)
     dops = [c.disjoint_op() for c in cases]
     dres = run_robust(ctx, exe, [d[0] for d in dops])
     ores = run_robust(ctx, exe, [c.op() for c in cases])
@@ -382,22 +512,7 @@ def run(ctx):
     state_found = state_sweep(ctx, exe)
 
     # ---- pass 2: correspondence model vs implementation
-    lines = []
-    for c, (dop, daddr), dr in zip(cases, dops, dres):
-        if c.spec.get("concrete"):
-            lines.append(c.op())
-            continue
-        rd, od = outputs_of(c, daddr, dr)
-        if rd is None:
-            lines.append(c.op())
-            continue
-        vals = []
-        dret, dar = split_out(dr)
-        for cid, b in c.spec["outs"]:
-            if daddr[b] is not None:
-                n = c.size(b)
-                vals.append("%s=%s" % (cid, dar[daddr[b]:daddr[b] + n].hex() or "-"))
-        lines.append(" ".join([c.op(), "|", dop.split(" ", 1)[1], "|", dret] + vals))
+    lines = build_lines(cases, dops, dres)
     mism = []
     if os.path.exists(ctx.driver()):
         try:
@@ -530,3 +645,47 @@ def replay(ctx, path):
                 print("output %s differs: %s vs %s" % (b, a1[x:x + n].hex(), a2[y:y + n].hex()))
     print("C11 %s on the current tree" % ("VIOLATED" if bad else "holds for this placement"))
     return 1 if bad else 0
+
+
+# ------------------------------------------------------------------ C19: overlap behaviour on the other configurations
+# op families whose lines address machine words (8-octet words in the 64-bit stream)
+C19_WORD_SPECIFIC = set()
+
+
+def c19_stream():
+    """(harness, driver, fn, uses_bash) for props/C19.py.  fn(ctx, exe, w) -> op lines (<= 15k): the corpus, the
+    SDE/KWPUnwrap regression placements, a thinned quick generator stream and a memJoin sweep.  Abstract-core
+    lines carry the values of the disjoint call executed on `exe` (the reference build of that word size)."""
+
+    class _Shim:
+        def __init__(self, ctx):
+            self.rng, self.tier, self.cov = ctx.rng, "quick", {}
+
+        def run_lines(self, *a, **k):
+            return self._ctx.run_lines(*a, **k)
+
+    def fn(ctx, exe, w):
+        S = _spec()
+        sh = _Shim(ctx)
+        sh._ctx = ctx
+        cases = corpus_cases(S) + regression_cases(sh, exe, S)
+        gen = gen_cases(sh, exe, S)
+        mj = memjoin_sweep(sh, S)
+        rng = ctx.rng
+        budget = 14500 - len(cases)
+        # keep every function: thin per function
+        byfn = collections.OrderedDict()
+        for c in gen:
+            byfn.setdefault(c.fn, []).append(c)
+        per = max(40, (budget - 3000) // max(1, len(byfn)))
+        for f, l in byfn.items():
+            if f in WORD_OPS and w != 64:
+                continue
+            cases += l if len(l) <= per else [l[i] for i in sorted(rng.sample(range(len(l)), per))]
+        cases += mj if len(mj) <= 3000 else [mj[i] for i in sorted(rng.sample(range(len(mj)), 3000))]
+        cases = cases[:14900]
+        dops = [c.disjoint_op() for c in cases]
+        dres = run_robust(ctx, exe, [d[0] for d in dops])
+        return build_lines(cases, dops, dres)
+
+    return "harness/c11.c", "drv_c11", fn, False
